@@ -220,3 +220,29 @@ def guarding_branch(mod: Module, stmt: ast.AST):
     while isinstance(test, ast.UnaryOp) and isinstance(test.op, ast.Not):
         test, positive = test.operand, not positive
     return par, test, positive, branch
+
+
+def regions_where(mod: Module, func_node: ast.AST, match):
+    """Yield (if_node, payload, statements) for every region of `func_node` in which a test recognised by `match(core_test)`
+    (returning a payload or None) is known to hold: the body of `if T`, the else-branch of `if not T`, and - when the branch
+    taken for `not T` always leaves (return / raise / continue / break) - the statements that follow the `if` in its block."""
+    for node in walk_no_nested(func_node):
+        if not isinstance(node, ast.If):
+            continue
+        test, positive = node.test, True
+        while isinstance(test, ast.UnaryOp) and isinstance(test.op, ast.Not):
+            test, positive = test.operand, not positive
+        payload = match(test)
+        if payload is None:
+            continue
+        holds = node.body if positive else node.orelse
+        other = node.orelse if positive else node.body
+        if holds:
+            yield node, payload, holds
+        elif other and isinstance(other[-1], (ast.Return, ast.Raise, ast.Continue, ast.Break)):
+            par = mod.parent.get(node)
+            for fld in ("body", "orelse", "finalbody"):
+                b = getattr(par, fld, None)
+                if isinstance(b, list) and any(x is node for x in b):
+                    i = [k for k, x in enumerate(b) if x is node][0]
+                    yield node, payload, b[i + 1:]
